@@ -63,6 +63,10 @@ def build_events(sc, reuse_evs=None, reuse_queue=None):
         evs.append(sut.PluginEvent(s["arrival"], ev))
     for e in sc["extra_events"]:
         evs.append(sut.Event(e["t"]) if e.get("type") == "Event" else sut.RecomputeEvent(e["t"]))
+    dp = sc.get("dup_plugin")
+    if dp:
+        s0 = next(s for s in sc["sessions"] if s["session_id"] == dp["session_id"] and s["station"] == dp["station"])
+        evs.append(sut.PluginEvent(dp["t"], build_ev(s0)))     # invalid input: must be refused (or change nothing)
     sub(sc["sim"].get("shuffle_events", 0), "evshuffle").shuffle(evs)
     if reuse_queue is not None:
         reuse_queue.add_events(evs)
